@@ -82,6 +82,30 @@ impl PreprocessedText {
     }
 }
 
+// Verification hooks (feature `verif`): drive and observe the origin map directly.
+#[cfg(feature = "verif")]
+impl PreprocessedText {
+    pub fn verif_new() -> Self {
+        Self::new()
+    }
+
+    pub fn verif_push(&mut self, s: &str, origin: Option<(PathBuf, Range)>) {
+        self.push(s, origin)
+    }
+
+    pub fn verif_merge(&mut self, other: PreprocessedText) {
+        self.merge(other)
+    }
+
+    /// (key, value range, source) of every map entry, in map order.
+    pub fn verif_segments(&self) -> Vec<(Range, Range, Option<(PathBuf, Range)>)> {
+        self.origins
+            .iter()
+            .map(|(k, v)| (*k, v.range, v.origin.clone()))
+            .collect()
+    }
+}
+
 #[derive(Clone, Debug, Eq, PartialEq)]
 pub struct Define {
     pub identifier: String,
